@@ -472,7 +472,7 @@ class Check(PropCheck):
                 yield Case({'holder': holder, 'idx': [1, 1, 1, 1], 'doctype': None if k % 3 else 'DOCTYPE html', 'tree': t,
                             'edit': {'side': 'copy' if k % 2 else 'orig', 'at': k % 3, 'op': e}, 'proto': k % 6,
                             'clone_at': k % 2}, 'exhaustive')
-        n = 6000 if tier == 'thorough' else 420
+        n = 6000 if tier == 'thorough' else 1200
         for i in range(n):
             yield Case(self.random_case(rng, big=(tier == 'thorough' and i % 4 == 0)), 'random')
 
